@@ -16,7 +16,7 @@ def cf(v):
 
 
 def cu(v):
-    return ("c", "usize", int(v))
+    return ("c", "int", int(v))
 
 
 TRUE = ("c", "bool", 1)
